@@ -54,7 +54,10 @@ UsesKeyring(r) == r.kr # "absent" /\ ~r.nokr /\ ~r.save
 ReadsAccounts(r, leg) == leg = "acctinfo" /\ (r.all \/ r.write)
 
 InitState(servers) ==
-  [store |-> [s \in servers |-> ""], skip |-> [s \in servers |-> FALSE], run |-> NoRun, pc |-> "idle", used |-> "", legs |-> <<>>, prompts |-> 0, gets |-> 0,
+  [store |-> [s \in servers |-> ""], skip |-> [s \in servers |-> FALSE],
+   cached |-> [s \in servers |-> FALSE],       \* a profile of the server is in the profile cache (C15 owns its content)
+   cfg |-> [s \in servers |-> FALSE],          \* the user's configuration file has a section for the server (C18 owns it)
+   run |-> NoRun, pc |-> "idle", used |-> "", legs |-> <<>>, prompts |-> 0, gets |-> 0,
    last |-> [leg |-> "", pw |-> ""]]
 
 EnBegin(s, r) == s.pc = "idle" /\ Modelled(r) /\ r.srv \in DOMAIN s.store
@@ -78,6 +81,7 @@ StAuthFail(s) == [s EXCEPT !.pc = "failed"]
 EnPost(s) == s.pc = "legs" /\ s.legs # <<>> /\ ~s.run.dry /\ ~EnAuthFail(s)
 StPost(s, accepted) ==
   [s EXCEPT !.last = [leg |-> Head(s.legs), pw |-> LegPw(s)], !.legs = Tail(s.legs),
+            !.cached[s.run.srv] = @ \/ Head(s.legs) = "profile",
             !.pc = IF ReadsAccounts(s.run, Head(s.legs)) /\ ~accepted THEN "failed" ELSE "legs"]
 EnPrint(s) == s.pc = "legs" /\ s.legs # <<>> /\ s.run.dry
 StPrint(s) == [s EXCEPT !.last = [leg |-> Head(s.legs), pw |-> LegPw(s)], !.legs = Tail(s.legs)]
@@ -89,7 +93,8 @@ SaveOutcome(s) ==
   ELSE IF r.kr = "broken" THEN "raise" ELSE "set"
 \* after the last leg the settings are written (--write; silent here, the file is C18's), then the password is stored
 EnWriteCfg(s) == s.pc = "legs" /\ s.legs = <<>>
-StWriteCfg(s) == [s EXCEPT !.pc = "save", !.skip[s.run.srv] = IF Writes(s.run) THEN EffSkip(s, s.run) ELSE @]
+StWriteCfg(s) == [s EXCEPT !.pc = "save", !.skip[s.run.srv] = IF Writes(s.run) THEN EffSkip(s, s.run) ELSE @,
+                                 !.cfg[s.run.srv] = @ \/ Writes(s.run)]
 EnSave(s) == s.pc = "save"
 EnKrSet(s) == EnSave(s) /\ SaveOutcome(s) \in {"set", "raise"}
 StKrSet(s) == IF SaveOutcome(s) = "set" THEN [s EXCEPT !.store[s.run.srv] = s.used, !.pc = "done"] ELSE [s EXCEPT !.pc = "failed"]
@@ -122,8 +127,15 @@ StateOK(s) == PrecedenceOK(s) /\ AtMostOnePrompt(s) /\ NoPromptWhenGiven(s) /\ K
               /\ ProfileIsAnonymous(s) /\ AuthLegsCarryThePassword(s)
 \* the keyring changes only by a --savepass run that is neither dry nor --nokeyring, for its own server, to the
 \* (non-empty) password that run used
+\* nothing the user keeps - keyring, configuration file, profile cache - is touched by a dry run, and the cache only by
+\* a profile exchange, the file only by --write
+StoresOK(s, t) ==
+  /\ (s.run.dry /\ s.pc # "idle") => (t.store = s.store /\ t.skip = s.skip /\ t.cached = s.cached /\ t.cfg = s.cfg)
+  /\ t.cached # s.cached => (~s.run.dry /\ ~EffSkip(s, s.run) /\ s.legs # <<>> /\ Head(s.legs) = "profile")
+  /\ (t.cfg # s.cfg \/ t.skip # s.skip) => Writes(s.run)
 StepOK(s, t) ==
-  s.store # t.store =>
+  /\ StoresOK(s, t)
+  /\ s.store # t.store =>
      /\ s.run.save /\ ~s.run.dry /\ ~s.run.nokr /\ s.run.kr = "ok" /\ s.used # ""
      /\ t.store = [s.store EXCEPT ![s.run.srv] = s.used]
      /\ s.pc = "save"
